@@ -161,11 +161,12 @@ static void run_history(vf::Ctx& ctx, const Problem& P, Solver& es, vw::OpCtl& c
 {
     auto& r = ctx.rng;
     using VecS = Eigen::Matrix<Scalar, Eigen::Dynamic, 1>;
-    const int len = (int) r.range(1, ctx.thorough ? 8 : 4);
+    const bool thor = ctx.thorough && P.clean;   // corpus cases are the same in both tiers
+    const int len = (int) r.range(1, thor ? 8 : 4);
     std::string word;
     bool inited = false, computed_since_init = false;
     const auto tols = TolSet<T>::get();
-    const std::vector<long> maxits = {0, 1, 2, 3, 5, 10, ctx.thorough ? 1000 : 300, ctx.thorough ? 1000 : 300, ctx.thorough ? 1000 : 300};
+    const std::vector<long> maxits = {0, 1, 2, 3, 5, 10, thor ? 1000 : 300, thor ? 1000 : 300, thor ? 1000 : 300};
     const char* startkind = "default";
     long restarts_total = 0;
     bool nontrivial = false;
